@@ -436,13 +436,25 @@ class Frame:
 
 
 class Thread:
+    """gdb.InferiorThread. Like the real one it goes invalid when its thread exits (every attribute then raises
+    RuntimeError), and global numbers are never handed out twice: a later thread in the same simulated slot is numbered
+    slot + 10 * (exits so far)."""
+
     def __init__(self, num):
-        self.global_num = num
-        self.num = num
-        self.ptid = (1, num, 0)
+        self._num = num
+        self._gen = getattr(_sim, 'thread_gen', {}).get(num, 0)
 
     def is_valid(self):
-        return True
+        return getattr(_sim, 'thread_gen', {}).get(self._num, 0) == self._gen
+
+    def _n(self):
+        if not self.is_valid():
+            raise RuntimeError('Thread no longer exists.')
+        return self._num + 10 * self._gen
+
+    global_num = property(lambda self: self._n())
+    num = property(lambda self: self._n())
+    ptid = property(lambda self: (1, self._n(), 0))
 
 
 def selected_frame():
@@ -560,6 +572,7 @@ class SimState:
         self.on_execute = None
         self.on_write = None
         self.on_selected_thread = None
+        self.thread_gen = {}
 
     def execute(self, command):
         if self.on_execute is not None:
